@@ -16,3 +16,87 @@ func VerifC06Regexps() map[string]*regexp.Regexp {
 		"time@configs.timeRegexp":                 timeRegexp,
 	}
 }
+
+// VerifC06ConfigStructs regenerates, for every resource the Configurator currently holds, the
+// template data struct exactly as addOrUpdateIngress / addOrUpdateMergeableIngress /
+// addOrUpdateVirtualServer / addOrUpdateTransportServer build it (same calls, same parameters), so
+// that the harness can check the strings that reach the templates against their declared classes.
+// Result: *version1.IngressNginxConfig | *version2.VirtualServerConfig | *version2.TransportServerConfig.
+func (cnf *Configurator) VerifC06ConfigStructs() []any {
+	var out []any
+	var names []string
+	for n := range cnf.ingresses {
+		names = append(names, n)
+	}
+	sortStrings(names)
+	for _, n := range names {
+		if m, ok := cnf.mergeableIngresses[n]; ok {
+			cfg, _ := generateNginxCfgForMergeableIngresses(NginxCfgParams{
+				mergeableIngs:             m,
+				apResources:               cnf.updateApResources(m.Master),
+				dosResource:               getAppProtectDosResource(m.Master.DosEx),
+				BaseCfgParams:             cnf.CfgParams,
+				isPlus:                    cnf.isPlus,
+				isResolverConfigured:      cnf.IsResolverConfigured(),
+				staticParams:              cnf.staticCfgParams,
+				isWildcardEnabled:         cnf.isWildcardEnabled,
+				ingressControllerReplicas: cnf.ingressControllerReplicas,
+			})
+			out = append(out, &cfg)
+			continue
+		}
+		ingEx := cnf.ingresses[n]
+		cfg, _ := generateNginxCfg(NginxCfgParams{
+			staticParams:              cnf.staticCfgParams,
+			ingEx:                     ingEx,
+			apResources:               cnf.updateApResources(ingEx),
+			dosResource:               getAppProtectDosResource(ingEx.DosEx),
+			isMinion:                  false,
+			isPlus:                    cnf.isPlus,
+			BaseCfgParams:             cnf.CfgParams,
+			isResolverConfigured:      cnf.IsResolverConfigured(),
+			isWildcardEnabled:         cnf.isWildcardEnabled,
+			ingressControllerReplicas: cnf.ingressControllerReplicas,
+		})
+		out = append(out, &cfg)
+	}
+	names = nil
+	for n := range cnf.virtualServers {
+		names = append(names, n)
+	}
+	sortStrings(names)
+	for _, n := range names {
+		vsEx := cnf.virtualServers[n]
+		dosResources := map[string]*appProtectDosResource{}
+		vsc := newVirtualServerConfigurator(cnf.CfgParams, cnf.isPlus, cnf.IsResolverConfigured(), cnf.staticCfgParams, cnf.isWildcardEnabled, nil)
+		vsc.IngressControllerReplicas = cnf.ingressControllerReplicas
+		cfg, _ := vsc.GenerateVirtualServerConfig(vsEx, cnf.updateApResourcesForVs(vsEx), dosResources)
+		out = append(out, &cfg)
+	}
+	names = nil
+	for n := range cnf.transportServers {
+		names = append(names, n)
+	}
+	sortStrings(names)
+	for _, n := range names {
+		tsEx := cnf.transportServers[n]
+		cfg, _ := generateTransportServerConfig(transportServerConfigParams{
+			transportServerEx:      tsEx,
+			listenerPort:           tsEx.ListenerPort,
+			isPlus:                 cnf.isPlus,
+			isResolverConfigured:   cnf.IsResolverConfigured(),
+			isDynamicReloadEnabled: cnf.staticCfgParams.DynamicSSLReload,
+			staticSSLPath:          cnf.staticCfgParams.StaticSSLPath,
+		})
+		out = append(out, cfg)
+	}
+	return out
+}
+
+func sortStrings(a []string) {
+	for i := 1; i < len(a); i++ {
+		for j := i; j > 0 && a[j] < a[j-1]; j-- {
+			a[j], a[j-1] = a[j-1], a[j]
+		}
+	}
+}
